@@ -17,11 +17,12 @@ UNITS = {
     'LINKDETACH': dict(template='linkdetach.rs', rlimit=30),
     'BUILDER': dict(template='builder.rs', rlimit=30),
     'SASLNEG': dict(template='saslneg.rs', rlimit=30),
+    'SASLMECH': dict(template='saslmech.rs', rlimit=40),
 }
 
 COMMON_TRUSTED = [
     'Verus 0.2026.09.13 + Z3 (verifier), rustc front end',
-    'extractor /verif/vlib (token-level rewrite rules R1-R22, logged per function in this file)',
+    'extractor /verif/vlib (token-level rewrite rules R1-R27, logged per function in this file)',
     'vstd specifications of Vec, VecDeque, Option, Result, integer wrapping_*/saturating_*/checked_*',
 ]
 
@@ -92,13 +93,16 @@ PROPS = {
         level_text='BOUNDED stand-in only: Kani/CBMC explores every byte string up to the stated length for each listed type on the real serde_amqp crate with overflow checks and unwinding assertions on. Nothing here is counted as proved; recursion depth, allocation size and progress are not decided.',
         assumptions=['bounded: input length <= 3 bytes per harness (all strings)', 'stack depth, allocation proportional to input, no-loop-without-consuming are NOT decided (a CBMC run cannot bound the real process)', 'structure-aware corruptions of longer encodings are covered only by the thorough-tier compound-header harnesses']),
     'C19': dict(
-        units=['FRAMEDEC', 'SASLNEG'], kani=K_SASL, level='proof', title='SASL (PLAIN validator bounded; SASL frame decoder proved total)',
-        level_text='Under Verus contracts: the listener negotiation loop (acceptor/connection.rs negotiate_sasl_with_framed: an AMQP connection is negotiated only after an outcome with code OK was produced and sent; anything else ends in Err) and the SASL frame decoder (any body yields Ok or Err, a non-SASL frame type is refused). The PLAIN credential validator is checked by Kani on the real fe2o3-amqp crate for every initial response up to 7 bytes against an independent oracle -- a BOUNDED stand-in listed under bounded_obligations, not counted as proved.',
+        units=['FRAMEDEC', 'SASLNEG', 'SASLMECH'], kani=K_SASL, level='proof', title='SASL (listener loop, PLAIN and SCRAM mechanisms, SCRAM client and client loop under contract; crypto and string library calls uninterpreted)',
+        level_text='Under Verus contracts: (1) the listener negotiation loop (acceptor/connection.rs negotiate_sasl_with_framed: an AMQP connection is negotiated only after an outcome with code OK was produced by the mechanism and sent; anything else ends in Err); (2) the listener mechanisms: PLAIN (validate_credential / validate_init / on_init / on_response: OK only for the configured user name and password, byte for byte) and SCRAM (ScramVersion::compute_server_final_message, ScramAuthenticator::compute_server_final_message, on_init, on_response: OK only when H(proof XOR HMAC(StoredKey, AuthMessage)) == StoredKey for the user and the combined nonce of this exchange); (3) the SCRAM client (ScramVersion::{compute_client_final_message, validate_server_final, compute_server_signature, compute_client_proof}, auth_message, without_proof, client_final, ScramClient::{compute_client_final_message, validate_server_final}, SaslProfile::on_frame) and the client negotiation loop Builder::negotiate_sasl: Ok only on an outcome frame with code OK, and for a SCRAM profile only if that outcome carries HMAC(ServerKey(password, salt, i), AuthMessage) over an exchange whose server-first message was received as a challenge and whose nonce extends the client nonce; (4) the SASL frame decoder (any body yields Ok or Err, a non-SASL frame type is refused). HMAC/SHA/PBKDF2/XOR, base64 and the str operations are uninterpreted functions. In addition the PLAIN validator is checked by Kani on the real fe2o3-amqp crate for every initial response up to 7 bytes against an independent oracle -- a BOUNDED stand-in listed under bounded_obligations, not counted as proved.',
         assumptions=[
-            'bounded: PLAIN initial responses of <= 7 bytes with a fixed 2-byte user and password; longer credentials/responses are not decided',
-            'the listener loop is under contract with the mechanism, the transport and the follow-up AMQP negotiation as stand-ins; NOT DECIDED: the client side (sasl_profile: a client never treats a non-OK outcome as success), a skipped SASL layer / premature AMQP header (protocol-header codec), which mechanism gets selected',
-            'NOT DECIDED: SCRAM (string splitting, base64, HMAC/PBKDF2: outside Verus (no str reasoning) and beyond CBMC within resource limits)',
-            'PLAIN does not check that init.mechanism == PLAIN (observed, not part of the property)']),
+            'cryptographic primitives (hmac, h, h_i/compute_salted_password, xor), base64 encode/decode, str::{split, strip_prefix, starts_with, parse}, from_utf8, the NUL-split iterator and bytes::BufMut on Vec<u8> are stand-ins with uninterpreted results: the contracts say WHICH values are compared and hashed, not that HMAC is unforgeable',
+            'byte-vector comparisons (Vec<u8> == &[u8], &[u8] != &[u8]) are replaced by extensional equality of the byte sequences (Verus gives these PartialEq impls no specification); if such a comparison disappears from a function altogether the function is verified without it (and fails), if it is rewritten in another form the check reports undecided',
+            'lengths of strings handled during SASL are below 2^32 (Vec::with_capacity sums); Arc<String> erased to String',
+            'the listener loop is under contract with the mechanism as a stand-in, and the mechanisms are under contract separately: the composition (loop says OK => mechanism said OK => credentials valid) is by reading the two contracts together, not one machine-checked theorem',
+            'NOT DECIDED: the first SCRAM steps (client_first_message, compute_server_first_message: nonce generation, user lookup) are stand-ins; which mechanism gets selected; a skipped SASL layer / premature AMQP header (protocol-header codec); SaslProfile::initial_response',
+            'bounded (Kani): PLAIN initial responses of <= 7 bytes with a fixed 2-byte user and password',
+            'PLAIN does not check that init.mechanism == PLAIN and ignores fields after the third NUL (observed, not part of the property)']),
     'C06': dict(
         units=['FRAMEENC', 'FRAMEDEC', 'CONNENG', 'TRANSPORT'], kani=[], level='proof', title='Frames on the wire',
         lemmas={'FRAMEENC': ['lemma_expected_properties', 'lemma_cut_points', 'lemma_mids_payload', 'lemma_mids_sizes', 'lemma_flatten_append', 'lemma_payloads_append']},
